@@ -3,6 +3,7 @@ package smoke
 
 import (
 	"fmt"
+	"time"
 
 	"verifharness/core"
 	"verifharness/progs"
@@ -33,6 +34,15 @@ func Run(ctx *core.Ctx) int {
 		p = progs.SameStage(1, 7, 3)
 	default:
 		p = progs.StoreMap(2, 3)
+	}
+	if ctx.Args["scenario"] == "latestore" {
+		p = progs.StoreMap(20, 1)
+		chain := sysrun.LinearChain{Head: 40, Final: 15}
+		d := sysrun.Scratch("late")
+		r := sysrun.Run(sysrun.Config{Modules: p.Modules, Output: p.Output, Prod: true, Seg: 5, Start: 2, Stop: 30, Final: 15, Dir: d, Source: chain, Timeout: 10 * time.Second})
+		show("prod store init 20, request [2,30) final 15", r)
+		fmt.Println(sysrun.ListFiles(d))
+		return 0
 	}
 	chain := sysrun.LinearChain{Head: 40, Final: 40}
 	d1 := sysrun.Scratch("lin")
